@@ -85,6 +85,9 @@ pub fn install_panic_hook() {
         } else {
             "<non-string panic>".to_string()
         };
+        if std::env::var("VERIF_BT").is_ok() {
+            eprintln!("PANIC at {loc}: {msg}\n{}", std::backtrace::Backtrace::force_capture());
+        }
         LAST_PANIC.with(|p| *p.borrow_mut() = Some(PanicInfo { loc, msg }));
     }));
 }
